@@ -16,7 +16,7 @@ func runC01(run *common.Run) {
 	run.Rule = "case = one generated mutation program (20-60 MutateRow/MutateRows requests over 8 colliding row keys, 2+1 families, 5 qualifiers, boundary/invalid timestamps, moving injected clock) run on one engine; after every request the whole table and the touched rows are re-read and compared cell-for-cell with the reference model. Non-trivial = the program had at least one delete that removed a cell, one rejected request and one server-time write; distinct by program hash x engine."
 	run.Assumptions = []string{"reference model written from the data-model documentation", "family order within a row is unspecified and not compared", "error codes are not compared, only OK vs not-OK"}
 	j := common.NewJournal("C01")
-	nprog := run.N(150, 3000)
+	nprog := run.N(600, 6000)
 	type job struct {
 		prog   int
 		engine string
